@@ -1,4 +1,5 @@
 import Evl.Lemmas.DispatchInv
+import Evl.Generated.DispatchFacts
 /-!
 # C03 — Send always returns and leaves no goroutine behind, whatever the cancel point
 
@@ -330,4 +331,18 @@ def demoRun : List Label :=
 example : ((fireAll demoCfg init demoRun).map (fun s => (s.collExited, decide (s.rg = .closed), s.got))) = some (true, true, []) := by
   decide
 
+end Evl.C03
+
+namespace Evl.C03
+/-- **The source has the structure the model assumes** (facts regenerated from graph.go on every
+run): every status send sits in a `select` next to `<-ctx.Done()` (the one bare send is provably
+dead code), the collector has a `ctx.Done()` arm and tests `ok`, `close` follows `wg.Wait()` and
+occurs once, `wg.Add(1)` precedes every root call and every spawn, `doProcess` defers `wg.Done()`,
+the range call-back tests the context before starting a root, roots run inline and children in
+goroutines, the child receives the event `Process` returned, the sink flag comes from `Type()`. -/
+theorem on_source : Evl.Generated.dispatchFacts =
+    { sendsGuardedByCtx := true, noLiveBareSend := true, collectorHasCtxArm := true, collectorChecksClosed := true,
+      closeAfterWait := true, closeOnce := true, addBeforeRootCall := true, addBeforeSpawn := true,
+      doProcessDefersDone := true, rangeChecksCtxBeforeStart := true, childGetsReturnedEvent := true,
+      sinkFlagFromType := true, childrenSpawnedWithGo := true, rootCalledInline := true } := by decide
 end Evl.C03
